@@ -30,6 +30,7 @@ BOUNDS = {
     "container": "all peeked byte strings of <= 64 bytes",
     "open_path": "10 suffixes x 5 modes x clobber x exists x 4 ways of naming stdio",
     "urls": "table of 30 URL spellings x reader/writer",
+    "interleaved writers": "two writers open at the same time, 6 x 6 codec pairs x all 2^4 schedules of 4 writes (real codecs)",
 }
 STUBS = ["decompressor constructors (gzip.GzipFile, bz2.BZ2File, lz4.open, zstd (de)compressor) return tagging stand-ins", "io.open / io.BufferedReader / stdin / stdout stand-ins", "importlib.import_module returns a module of recording adapter classes (O4)"]
 OUTSIDE = ["that a standard decompressor accepts the file and the record content after decompression (the codecs are C libraries)"]
@@ -486,6 +487,77 @@ def urls():
     return check
 
 
+EXTS = ["", ".gz", ".bz2", ".lz4", ".zst", ".zstd"]
+
+
+def interleaved_problem(ext_a, ext_b, schedule):
+    """Two writers open at the same time (real codecs, real files), writes interleaved as `schedule` says (False = writer A, True = B):
+    each file is accepted by a standard decompressor of its format and reads back as exactly its own records."""
+    import bz2
+    import gzip
+
+    import lz4.frame
+    import zstandard
+
+    from flow.record import RecordDescriptor, RecordReader, RecordWriter
+
+    dec = {"": lambda b: b, ".gz": gzip.decompress, ".bz2": bz2.decompress, ".lz4": lz4.frame.decompress, ".zst": lambda b: zstandard.ZstdDecompressor().decompressobj().decompress(b)}
+    dec[".zstd"] = dec[".zst"]
+    D = RecordDescriptor("test/il", [("varint", "n"), ("string", "who")])
+    with tempdir() as d:
+        paths = [f"{d}/a.records{ext_a}", f"{d}/b.records{ext_b}"]
+        ws = [RecordWriter(p) for p in paths]
+        want = [[], []]
+        for i, who in enumerate(schedule):
+            k = 1 if who else 0
+            ws[k].write(D(i, "ab"[k] * 40))
+            want[k].append(i)
+        for w in ws:
+            w.flush()
+        for w in ws:
+            w.close()
+        for k, (p, ext) in enumerate(zip(paths, (ext_a, ext_b))):
+            raw = open(p, "rb").read()
+            if want[k]:
+                try:
+                    plain = dec[ext](raw)
+                except Exception as e:  # noqa: BLE001
+                    return f"writer {'AB'[k]} (*{ext or 'raw'}): a standard decompressor rejects the file: {type(e).__name__}: {e}"
+                if b"RECORDSTREAM" not in plain[:19]:
+                    return f"writer {'AB'[k]} (*{ext or 'raw'}): decompressed content is not a record stream"
+            try:
+                with RecordReader(p) as rd:
+                    got = [int(r.n) for r in rd]
+            except Exception as e:  # noqa: BLE001
+                if not want[k]:
+                    continue  # an output without records is C17's subject (known finding K3)
+                return f"writer {'AB'[k]} (*{ext or 'raw'}): reading back raised {type(e).__name__}: {e}"
+            if got != want[k]:
+                return f"writer {'AB'[k]} (*{ext or 'raw'}): read back {got}, written {want[k]}"
+    return None
+
+
+def interleaved(ea: int):
+    """Path-exhaustive over (codec of the second writer, schedule of 4 writes): the concrete part runs real codecs untraced."""
+    from crosshair.tracers import NoTracing
+
+    def check(eb: int, s0: bool, s1: bool, s2: bool, s3: bool) -> bool:
+        """
+        post: _
+        """
+        if not (0 <= eb < len(EXTS)):
+            return True
+        ext_b = None
+        for j in range(len(EXTS)):
+            if eb == j:
+                ext_b = EXTS[j]
+        sched = [bool(s0), bool(s1), bool(s2), bool(s3)]
+        with NoTracing():
+            return interleaved_problem(EXTS[ea], ext_b, sched) is None
+
+    return check
+
+
 def obligations(tier, seed):
     to = 60 if tier == "quick" else 240
     return [
@@ -494,6 +566,7 @@ def obligations(tier, seed):
         ob("O2-stream-header", "smt", "stream_header", {}, timeout=240, bounds="all byte strings a header read can return (<= 19 bytes)"),
         ob("O2-not-found", "xh", "not_found", {}, timeout=to, bounds="3 detection outcomes x leading '<' x selector"),
         ob("O3-open-path", "xh", "path_open", {}, timeout=to * 2, bounds="10 suffixes x 5 modes x clobber x exists x 4 stdio spellings"),
+        *[ob(f"O5-interleaved-writers/{EXTS[i] or 'raw'}", "xh", "interleaved", {"ea": i}, timeout=to * 2, group="O5-interleaved", bounds="second writer's codec x every schedule of 4 interleaved writes, real codecs and files") for i in range(len(EXTS))],
         ob("O4-urls", "xh", "urls", {}, timeout=to * 2, bounds=f"{len(URLS)} URL spellings x reader/writer x clobber"),
     ]
 
@@ -611,6 +684,18 @@ def replay_header(res):
 def replay(res):
     if "stream-header" in res["id"]:
         return replay_header(res)
+    if "interleaved" in res["id"]:
+        v = cex_args(res, ["eb", "s0", "s1", "s2", "s3"])
+        ea = EXTS[res["args"]["ea"]]
+        tries = []
+        if isinstance(v.get("eb"), int) and 0 <= v["eb"] < len(EXTS):
+            tries.append((EXTS[v["eb"]], [bool(v.get(f"s{i}")) for i in range(4)]))
+        tries += [(e, sch) for e in EXTS for sch in ([False, True, False, True], [True, False, False, True], [False, False, True, True])]
+        for eb, sch in tries:
+            p = interleaved_problem(ea, eb, sch)
+            if p:
+                return {"reproduced": True, "key": f"C11/interleaved/{ea or 'raw'}+{eb or 'raw'}", "what": f"two writers open at the same time (*{ea or 'raw'}, *{eb or 'raw'}), writes interleaved {['AB'[int(x)] for x in sch]}: {p}", "input": {"ext_a": ea, "ext_b": eb, "schedule": sch}}
+        return {"reproduced": False, "what": "interleaved writers read back exactly"}
     problem = real_matrix()
     if problem is None:
         return {"reproduced": False, "what": "codec x container x naming matrix reads back exactly with real codecs"}
